@@ -30,6 +30,7 @@ var (
 	fMinimize = flag.Int("minimize", 1500, "re-execution budget for minimisation")
 	fSteps    = flag.Int("maxsteps", 200000, "step budget per run")
 	fVerbose  = flag.Bool("v2", false, "print per-run lines")
+	fHang     = flag.Int("hang", 30, "wall-clock seconds after which a single run counts as hung (a loop without any scheduling point)")
 )
 
 // Knobs are the per-run swarm parameters of the scheduler; they are derived from the run seed and
@@ -101,6 +102,8 @@ func execute(t *testing.T, h Harness, k Knobs, prog, sched *simrt.Stream, keep i
 	// package notices a race-detector report during the bubble, and panics when tasks are left
 	// blocked at the end of the bubble.
 	done := make(chan struct{})
+	wd := time.AfterFunc(time.Duration(*fHang)*time.Second, func() { hangExit(h, k, prog, sched) })
+	defer wd.Stop()
 	go func() {
 		defer close(done)
 		defer func() { _ = recover() }()
@@ -244,6 +247,7 @@ func TestWorker(t *testing.T) {
 		runSeed := simrt.Mix(*fSeed, uint64(idx))
 		h := pickHarness(hs, runSeed)
 		k := knobsFor(runSeed)
+		hangCtx.idx, hangCtx.runSeed, hangCtx.emit = idx, runSeed, emit
 		keep := 0
 		if len(sum.Samples) < 2 {
 			keep = 60
@@ -446,6 +450,40 @@ func trimRace(blk string) string {
 	return strings.Join(out, "\n")
 }
 
+// hangCtx is what hangExit needs to describe the run in progress.
+var hangCtx struct {
+	idx      int
+	runSeed  uint64
+	emit     func(v any)
+	replay   bool
+	expected string
+}
+
+// hangExit is called by the per-run watchdog: the run has been executing for far longer than any
+// simulated run can (a task is spinning without ever reaching a scheduling point, so the simulator
+// cannot take the baton back). The choice vectors consumed so far identify the run; the process
+// cannot continue and exits.
+func hangExit(h Harness, k Knobs, prog, sched *simrt.Stream) {
+	msg := "a task has been running for " + fmt.Sprint(*fHang) + " s of wall-clock time without reaching any scheduling point (busy loop): the call never returns and never blocks"
+	if hangCtx.replay {
+		res := map[string]any{"kind": "replay", "check": "hang", "msg": msg, "hash": "", "expected_check": hangCtx.expected, "expected_hash": "",
+			"same": hangCtx.expected == "hang"}
+		b, _ := json.Marshal(res)
+		fmt.Println(string(b))
+		os.Exit(3)
+	}
+	rf := &ReplayFile{Property: h.Prop, Harness: h.Name, Seed: *fSeed, RunIndex: hangCtx.idx, RunSeed: hangCtx.runSeed, Knobs: k,
+		Prog: append([]uint32(nil), prog.Used()...), Sched: append([]uint32(nil), sched.Used()...), Check: "hang", Message: msg}
+	path := fmt.Sprintf("%s/%s-%d-%d.json", *fReplays, h.Prop, *fSeed, hangCtx.idx)
+	b, _ := json.MarshalIndent(rf, "", " ")
+	os.WriteFile(path, b, 0o644)
+	if hangCtx.emit != nil {
+		hangCtx.emit(map[string]any{"kind": "violation", "prop": h.Prop, "harness": h.Name, "check": "hang", "msg": msg, "replay": path, "run_index": hangCtx.idx})
+		hangCtx.emit(map[string]any{"kind": "summary", "prop": h.Prop, "runs": 1, "violations": 1})
+	}
+	os.Exit(3)
+}
+
 func firstN(s []string, n int) []string {
 	if len(s) > n {
 		return s[:n]
@@ -598,6 +636,7 @@ func replayMain(t *testing.T) {
 		fmt.Println("INFRA unknown harness", rf.Harness)
 		os.Exit(2)
 	}
+	hangCtx.replay, hangCtx.expected = true, rf.Check
 	o := execute(t, *h, rf.Knobs, simrt.ReplayStream(rf.Prog), simrt.ReplayStream(rf.Sched), 4000)
 	hash := ""
 	if o.res != nil {
